@@ -300,6 +300,51 @@ func (m *Machine) Exec(op Op) (Event, error) {
 		if !ev.Big {
 			ev.Post = unread(b)
 		}
+	case "encodehuge":
+		// A frame whose body holds one very long text (K bytes of value Bytes[0]); only what the
+		// length clause needs is logged: the first bytes of what was appended, how much was
+		// appended, and the object's computed fields. Field name in From, body type in T (the
+		// frame type is derived from it), frame object value in V (body left nil).
+		obj, err := Build(op.V)
+		if err != nil {
+			return ev, err
+		}
+		bodyCtor, ok := Ctors[op.T]
+		if !ok {
+			return ev, fmt.Errorf("unknown type %s", op.T)
+		}
+		body := bodyCtor()
+		fv := reflect.ValueOf(body).Elem().FieldByName(op.From)
+		if !fv.IsValid() || fv.Kind() != reflect.String {
+			return ev, fmt.Errorf("%s has no text field %s", op.T, op.From)
+		}
+		fv.SetString(string(bytes.Repeat([]byte{byte(op.Bytes[0])}, op.K)))
+		bfv := reflect.ValueOf(obj).Elem().FieldByName(op.Alg) // body field name travels in Alg
+		if !bfv.IsValid() {
+			return ev, fmt.Errorf("no body field %s", op.Alg)
+		}
+		bfv.Set(reflect.ValueOf(body))
+		c, err := AsCodec(obj)
+		if err != nil {
+			return ev, err
+		}
+		b := m.buf(op.B)
+		pre := b.Len()
+		ev.InLen = pre
+		ev.T = NameOf(obj)
+		ev.Res, ev.Err = guarded(func() error { return c.Encode(b) })
+		app := b.Bytes()[pre:]
+		ev.PLen = len(app)
+		head := app
+		if len(head) > 48 {
+			head = head[:48]
+		}
+		ev.Bytes = B2I(head)
+		ev.Big = true
+		// the object after the call, with the huge body dropped again
+		bfv.Set(reflect.Zero(bfv.Type()))
+		ev.VPost = Dump(obj)
+		b.Reset()
 	case "regfactory":
 		// the application registers (or overrides) a discriminator: table From, key Bytes, body type T
 		rf, ok := Registries[op.From]
